@@ -208,3 +208,73 @@ Proof.
     + rewrite (list_alloc_plain h 0 1); auto; try lia. rewrite Hsz. reflexivity.
     + rewrite (list_alloc_plain h d 0); auto; try lia. rewrite Hsz. reflexivity.
 Qed.
+
+(* ------------------------------------------------------------------ pool = table *)
+Definition objs_of (st : bstate) : list Ptr := filter p_valid (map snd (st_h st)).
+
+Definition pool_ok (st : bstate) : Prop :=
+  Forall (fun h => fst h = InDst /\ (p_valid (snd h) = true -> p_member (snd h) = false)) (st_h st).
+
+Definition sinv (st : bstate) (pads : list region) : Prop :=
+  hinv (w_dst (st_w st)) (objs_of st) pads /\ pool_ok st.
+
+Lemma objs_of_push st w p : objs_of (hpush st w InDst p) = objs_of st ++ (if p_valid p then [p] else []).
+Proof. unfold objs_of, hpush. cbn [st_h]. rewrite map_app, filter_app. cbn. destruct (p_valid p); reflexivity. Qed.
+
+Lemma pool_ok_push st w p : pool_ok st -> (p_valid p = true -> p_member p = false) -> pool_ok (hpush st w InDst p).
+Proof. intros H Hp. unfold pool_ok, hpush. cbn [st_h]. apply Forall_app. split; [exact H|]. repeat constructor; auto. Qed.
+
+Lemma sinv_push_null st pads : sinv st pads -> sinv (hpush st (st_w st) InDst nullPtr) pads.
+Proof.
+  intros [H P]. split.
+  - rewrite objs_of_push. cbn [p_valid nullPtr]. rewrite app_nil_r. exact H.
+  - apply pool_ok_push; auto.
+Qed.
+
+(* a valid pool handle of the wanted kind is a table object *)
+Lemma hget_obj st pads h : sinv st pads -> p_valid (snd (hget st h)) = true ->
+  In (snd (hget st h)) (objs_of st) /\ p_member (snd (hget st h)) = false /\ fst (hget st h) = InDst.
+Proof.
+  intros [_ P] Hv. unfold hget in *.
+  destruct (Nat.lt_ge_cases (Z.to_nat h) (length (st_h st))) as [L|G].
+  - pose proof (nth_In (st_h st) (InDst, nullPtr) L) as Hin.
+    unfold pool_ok in P. rewrite Forall_forall in P. destruct (P _ Hin) as [P1 P2].
+    split; [|split; auto]. unfold objs_of. apply filter_In. split; [apply in_map; exact Hin|exact Hv].
+  - rewrite nth_overflow in Hv by lia. discriminate Hv.
+Qed.
+
+(* the sub-language, as an executable predicate on ops *)
+Definition width_b (n : Z) : bool := (n =? 1) || (n =? 2) || (n =? 4) || (n =? 8).
+Definition ro_op (o : op) : bool :=
+  match o with
+  | OHasPtr _ _ | OUint _ _ _ | OBit _ _ | OUintAt _ _ _ | OBitAt _ _ | OText _ | OData _ | OInfo _ | ORLimit | OWalk _ _ _ _ => true
+  | _ => false
+  end.
+Definition sub_op (o : bop) : bool :=
+  match o with
+  | BNewStruct _ dsz pc => (0 <=? dsz) && (0 <=? pc) && (pc <? 65536)
+  | BNewPrim _ sz _ => (sz =? 0) || width_b sz
+  | BNewBit _ _ | BNewPList _ _ | BNewVoid _ _ => true
+  | BNewBytes _ v _ => zlen v <? 536870911
+  | BSetUint _ off n _ => (0 <=? off) && width_b n
+  | BSetBit _ n _ => 0 <=? n
+  | BSetPtr _ i _ => 0 <=? i
+  | BSetRoot _ => true
+  | BRead _ o => ro_op o
+  | BRoundTrip _ _ _ | BDump _ => true
+  | _ => false
+  end.
+
+Lemma alloc_ctor st pads sid sz m1 s1 a h :
+  sinv st pads -> valid_sid st sid = true -> 0 <= sz -> alloc (w_dst (st_w st)) sid sz = Ok (m1, s1, a) ->
+  nsegs m1 < 4294967296 ->
+  h = mkPtr true s1 a (p_len h) (p_size h) maxDepth (p_kind h) false (p_bit h) false -> shape_ok h -> obj_bytes h = sz ->
+  sinv (hpush st (w_set_dst (st_w st) m1) InDst h) pads.
+Proof.
+  intros [H P] Hv Hz EA Hns Eh Sh Eb. apply valid_sid_range in Hv.
+  assert (V : p_valid h = true) by (rewrite Eh; reflexivity).
+  split.
+  - rewrite objs_of_push, V. cbn [hpush st_w w_dst w_set_dst].
+    apply (hinv_alloc_obj (w_dst (st_w st)) (objs_of st) pads sid sz m1 s1 a h); auto; rewrite Eh; reflexivity.
+  - apply pool_ok_push; auto. intros _. rewrite Eh. reflexivity.
+Qed.
